@@ -32,7 +32,16 @@ Sites(p) ==
              THEN { [kind |-> "del", a |-> p.exts[i].id, b |-> 0] : i \in {1, Len(p.exts)} } ELSE {}
       ps == { [kind |-> "padsize", a |-> 0, b |-> 0] }
       all == pay \cup cs \cup ev \cup setnew \cup setold \cup del \cup ps
-  IN SetToSeq({ [side |-> s, kind |-> m.kind, a |-> m.a, b |-> m.b] : s \in {"orig", "clone"}, m \in all })
+      \* two-step histories: the observed side first gets an extension of its own, then the other side adds one
+      second == IF ~p.x THEN {}
+                ELSE IF p.profile = OneByte /\ Len(p.exts) < 13 THEN
+                     LET a == FreeOneByteId(p)  b == CHOOSE id \in 1..14 : id # a /\ \A i \in 1..Len(p.exts) : p.exts[i].id # id IN
+                     { [kind |-> "set", a |-> a, b |-> 2, prekind |-> "set", prea |-> b, preb |-> 3] }
+                ELSE IF p.profile = TwoByte THEN { [kind |-> "set", a |-> 200, b |-> 20, prekind |-> "set", prea |-> 201, preb |-> 5] }
+                ELSE {}
+      plain == { [kind |-> m.kind, a |-> m.a, b |-> m.b, prekind |-> "", prea |-> 0, preb |-> 0] : m \in all }
+  IN SetToSeq({ [side |-> s, kind |-> m.kind, a |-> m.a, b |-> m.b, prekind |-> m.prekind, prea |-> m.prea, preb |-> m.preb]
+                : s \in {"orig", "clone"}, m \in plain \cup second })
 
 CaseOf(p) ==
   [fam |-> Fam, p |-> p, tags |-> Tags(p), class |-> Class(p),
